@@ -192,7 +192,8 @@ def r4(ctx):
         ctx.require_guards(bd, b.idx, [("Confirm::Yes", yes), ("series.fin == false", g_bool(lambda x: mentions_field(x, "fin") and mentions_name(x, "series"), False))], "next-fragment:%s" % what, what)
         ctx.check(bd.block_dominates(inc[0].idx, b.idx), "next-fragment:%s:after-increment" % what, "ecsn.increment() precedes %s" % what, bd.where(b.idx))
     e = sym.call_expr(fm[0].term)
-    ctx.check(mentions_field(e[2][3], "ecsn") and mentions_name(e[2][3], "series"), "next-fragment:seq", "next fragment seq = %s" % expr_str(e[2][3]), bd.where(fm[0].idx))
+    # ... the value AFTER the increment: `series.ecsn`, not what `increment()` returns (that is the previous number)
+    ctx.check(mentions_field(e[2][3], "ecsn") and mentions_name(e[2][3], "series") and not mentions_call(e[2][3], r"Sequence::increment$"), "next-fragment:seq", "next fragment seq = %s" % expr_str(e[2][3]), bd.where(fm[0].idx))
     e = sym.call_expr(ws[0].term)
     ctx.check(mentions(e[2][3], lambda s: s[0] == "variant" and s[2] == "Yes"), "next-fragment:respond_to", "respond_to = %s" % expr_str(e[2][3])[-50:], bd.where(ws[0].idx))
     ctx.check(mentions_call(e[2][4], r"format_read_response$"), "next-fragment:response", "transmits the freshly formatted response", bd.where(ws[0].idx))
@@ -405,3 +406,36 @@ def r13(ctx):
 
 
 RULES.append(("C11.R13", "T4-namesake", "a READ of Group<g>Var<v> selects the static variation of that name (shared with C09.R15)", r13))
+
+
+def r14(ctx):
+    """'a consistent snapshot as an orderly series': a series cut short by a disconnect leaves no selection behind - the database
+    selection is reset before a session's first await (session_start_resets, shared code, F17)."""
+    session_start_resets(ctx)
+
+
+RULES.append(("C11.R14", "T2", "the READ selection is reset before a session's first await (shared with C03.R11)", r14))
+
+
+def r15(ctx):
+    """'an orderly series': while a fragment awaits its confirm the session keeps waiting until the deadline whatever application
+    messages arrive - OutstationSession::sleep_until handles a message and goes on sleeping (its select! sits in a loop that is left
+    only by the sleep branch or an error), else a decode-level change would end the confirm wait as a timeout."""
+    prog = ctx.prog
+    bd = prog.abody("OutstationSession::sleep_until")
+    hs = call_sites(bd, r"OutstationSession::handle_next_message$")
+    if len(hs) != 1:
+        raise AnchorError("sleep_until: handle_next_message sites %d" % len(hs))
+    lp = innermost_loop(bd, hs[0].idx)
+    ctx.check(lp is not None, "sleep_until:loops", "handling a message is followed by more sleeping (the select! is in a loop)", bd.where(hs[0].idx), bad_detail="sleep_until returns after handling one application message: a confirm wait in progress ends as if the deadline had passed and the READ series is abandoned")
+    if lp is not None:
+        sym = ctx.sym(bd)
+        errs = error_exit_blocks(bd)
+        ok = True
+        for b, si, st, e in ret_sites(bd, sym):
+            if e[0] == "agg" and e[2] == "Ok" and bd.can_reach(hs[0].idx, b.idx, removed_blocks=errs) and not bd.can_reach(hs[0].idx, lp[0], removed_blocks={b.idx} | errs):
+                ok = False
+        ctx.check(ok, "sleep_until:message-does-not-end-sleep", "the Ok(()) exit belongs to the sleep branch", bd.where(hs[0].idx))
+
+
+RULES.append(("C11.R15", "T2-loop", "application messages do not end a sleep / confirm wait early", r15))
